@@ -408,17 +408,39 @@ theorem compactTable_eq (s : Store) (tid : Nat) (d : TableDef) (sel : List Nat) 
     s.compactTable tid d sel =
       if selected.length ≤ 1 then s
       else if rows.isEmpty then
-        { (s.commit (selected.map fun rs => Rec.delRowSet tid rs)) with
+        { (s.commit ((selected.map fun rs => Rec.delRowSet tid rs) ++ compactDvDels s tid selected)) with
           rowsets := s.rowsets.filter fun x => !(x.1 == tid && selected.contains x.2),
+          dvs := s.dvs.filter fun e => !(e.tid == tid && selected.contains e.rs),
           pending := s.pending ++ selected.map fun rs => (tid, rs) }
       else
-        { (s.commit (Rec.addRowSet tid s.nextRs :: selected.map fun rs => Rec.delRowSet tid rs)) with
+        { (s.commit (Rec.addRowSet tid s.nextRs :: ((selected.map fun rs => Rec.delRowSet tid rs) ++ compactDvDels s tid selected))) with
           nextRs := s.nextRs + 1
           dirs := s.dirs ++ [((tid, s.nextRs), rows)]
           rowsets := (s.rowsets.filter fun x => !(x.1 == tid && selected.contains x.2)) ++ [(tid, s.nextRs)]
+          dvs := s.dvs.filter fun e => !(e.tid == tid && selected.contains e.rs)
           pending := s.pending ++ selected.map fun rs => (tid, rs) } := by
   subst hsel hrows
   rfl
+
+/-- dropping the delete vectors of the selected row-sets of `tid` leaves the DVs of every other
+row-set as they were -/
+theorem dvsOf_keep (s s' : Store) (tid : Nat) (selected : List Nat)
+    (hdv : s'.dvs = s.dvs.filter fun e => !(e.tid == tid && selected.contains e.rs))
+    (t rs : Nat) (h : ¬ (t = tid ∧ rs ∈ selected)) : s'.dvsOf t rs = s.dvsOf t rs := by
+  simp only [Store.dvsOf, hdv, List.filter_filter]
+  congr 1
+  apply List.filter_congr
+  intro e _
+  by_cases h1 : e.tid = t <;> by_cases h2 : e.rs = rs
+  · subst h1; subst h2
+    have : (e.tid == tid && selected.contains e.rs) = false := by
+      cases hc : (e.tid == tid && selected.contains e.rs) with
+      | false => rfl
+      | true => simp at hc; exact absurd hc h
+    rw [this]; simp
+  · simp [h1, h2]
+  · simp [h1]
+  · simp [h1]
 
 /-- **One table's compaction is invisible**: every table scans to a permutation of what it scanned
 before, for any selection of row-sets. -/
@@ -453,6 +475,17 @@ theorem compactTable_scan (s : Store) (wf : Wf s) (tid : Nat) (d : TableDef) (se
   have hkeepOf : ∀ t, ((s.rowsets.filter fun x => !(x.1 == tid && selected.contains x.2)).filter (·.1 == t)).map (·.2)
       = if t = tid then (s.rowsetsOf tid).filter (fun x => !selected.contains x) else s.rowsetsOf t :=
     fun t => keepOf tid t selected s.rowsets
+  -- membership in the kept row-set list of a table
+  have hkeptNot : ∀ t rs, rs ∈ (if t = tid then (s.rowsetsOf tid).filter (fun x => !selected.contains x) else s.rowsetsOf t) →
+      ¬ (t = tid ∧ rs ∈ selected) ∧ (t, rs) ∈ s.rowsets := by
+    intro t rs hrs
+    by_cases ht : t = tid
+    · subst ht
+      simp only [if_true] at hrs
+      have := List.mem_filter.mp hrs
+      exact ⟨fun h => by simp [h.2] at this, mem_rowsetsOf.mp this.1⟩
+    · simp only [ht, if_false] at hrs
+      exact ⟨fun h => ht h.1, mem_rowsetsOf.mp hrs⟩
   by_cases hlen : selected.length ≤ 1
   · simp only [hlen, if_true]
     exact ⟨wf, trivial, trivial, fun _ => List.Perm.refl _⟩
@@ -464,7 +497,7 @@ theorem compactTable_scan (s : Store) (wf : Wf s) (tid : Nat) (d : TableDef) (se
       · constructor
         · exact wf.dirs
         · intro k hk; exact wf.rs k (List.mem_filter.mp hk).1
-        · exact wf.dv
+        · intro e he; exact wf.dv e (List.mem_filter.mp he).1
         · intro k hk
           rcases List.mem_append.mp hk with hk | hk
           · have := wf.pend k hk
@@ -475,11 +508,25 @@ theorem compactTable_scan (s : Store) (wf : Wf s) (tid : Nat) (d : TableDef) (se
             have := (List.mem_filter.mp h).2
             simp [hrs] at this
       · intro t
-        unfold Store.scan
-        have hro : ∀ (s0 : Store), s0.rowsets = (s.rowsets.filter fun x => !(x.1 == tid && selected.contains x.2)) →
-            s0.rowsetsOf t = (if t = tid then (s.rowsetsOf tid).filter (fun x => !selected.contains x) else s.rowsetsOf t) := by
-          intro s0 h0; rw [← hkeepOf t]; simp only [Store.rowsetsOf, h0]
-        rw [hro _ rfl]
+        generalize hs' : ({ (s.commit ((selected.map fun rs => Rec.delRowSet tid rs) ++ compactDvDels s tid selected)) with
+          rowsets := s.rowsets.filter fun x => !(x.1 == tid && selected.contains x.2),
+          dvs := s.dvs.filter fun e => !(e.tid == tid && selected.contains e.rs),
+          pending := s.pending ++ selected.map fun rs => (tid, rs) } : Store) = s'
+        have fdv : s'.dvs = s.dvs.filter fun e => !(e.tid == tid && selected.contains e.rs) := by rw [← hs']
+        have fdirs : s'.dirs = s.dirs := by rw [← hs']; rfl
+        have frs : s'.rowsets = s.rowsets.filter fun x => !(x.1 == tid && selected.contains x.2) := by rw [← hs']
+        have hro : s'.rowsetsOf t = (if t = tid then (s.rowsetsOf tid).filter (fun x => !selected.contains x) else s.rowsetsOf t) := by
+          rw [← hkeepOf t]; simp only [Store.rowsetsOf, frs]
+        have hvis : ∀ rs, rs ∈ s'.rowsetsOf t → s'.rsVisible t rs = s.rsVisible t rs := by
+          intro rs hrs
+          rw [hro] at hrs
+          simp only [Store.rsVisible, Store.dirRows, fdirs, dvsOf_keep s s' tid selected fdv t rs (hkeptNot t rs hrs).1]
+        have e1 : s'.scan t = (s'.rowsetsOf t).flatMap fun rs => (s.rsVisible t rs).map (·.2) := by
+          unfold Store.scan
+          apply flatMap_congr'
+          intro rs hrs
+          rw [hvis rs hrs]
+        rw [e1, hro]
         by_cases ht : t = tid
         · subst ht
           simp only [if_true]
@@ -499,7 +546,7 @@ theorem compactTable_scan (s : Store) (wf : Wf s) (tid : Nat) (d : TableDef) (se
           rcases List.mem_append.mp hk with hk | hk
           · have := wf.rs k (List.mem_filter.mp hk).1; show k.2 < s.nextRs + 1; omega
           · simp at hk; subst hk; show s.nextRs < s.nextRs + 1; omega
-        · intro e he; have := wf.dv e he; show e.rs < s.nextRs + 1; omega
+        · intro e he; have := wf.dv e (List.mem_filter.mp he).1; show e.rs < s.nextRs + 1; omega
         · intro k hk
           rcases List.mem_append.mp hk with hk | hk
           · have := wf.pend k hk
@@ -517,35 +564,37 @@ theorem compactTable_scan (s : Store) (wf : Wf s) (tid : Nat) (d : TableDef) (se
               simp [hrs] at this
             · simp at h; simp at hlt; omega
       · intro t
-        generalize hs' : ({ (s.commit (Rec.addRowSet tid s.nextRs :: selected.map fun rs => Rec.delRowSet tid rs)) with
+        generalize hs' : ({ (s.commit (Rec.addRowSet tid s.nextRs :: ((selected.map fun rs => Rec.delRowSet tid rs) ++ compactDvDels s tid selected))) with
           nextRs := s.nextRs + 1
           dirs := s.dirs ++ [((tid, s.nextRs), rows)]
           rowsets := (s.rowsets.filter fun x => !(x.1 == tid && selected.contains x.2)) ++ [(tid, s.nextRs)]
+          dvs := s.dvs.filter fun e => !(e.tid == tid && selected.contains e.rs)
           pending := s.pending ++ selected.map fun rs => (tid, rs) } : Store) = s'
-        have fdv : s'.dvs = s.dvs := by rw [← hs']; rfl
+        have fdv : s'.dvs = s.dvs.filter fun e => !(e.tid == tid && selected.contains e.rs) := by rw [← hs']
         have fdirs : s'.dirs = s.dirs ++ [((tid, s.nextRs), rows)] := by rw [← hs']
         have frs : s'.rowsets = (s.rowsets.filter fun x => !(x.1 == tid && selected.contains x.2)) ++ [(tid, s.nextRs)] := by
           rw [← hs']
-        have hold : ∀ t rs, (t, rs) ∈ s.rowsets → s'.rsVisible t rs = s.rsVisible t rs := by
-          intro t rs hrs
+        have hold : ∀ t rs, (t, rs) ∈ s.rowsets → ¬ (t = tid ∧ rs ∈ selected) → s'.rsVisible t rs = s.rsVisible t rs := by
+          intro t rs hrs hns
           have hlt := wf.rs _ hrs
           have : lookup (t, rs) (s.dirs ++ [((tid, s.nextRs), rows)]) = lookup (t, rs) s.dirs := by
             rw [lookup_append]
             have : lookup (t, rs) [((tid, s.nextRs), rows)] = none := by
               simp [lookup]; intro _ h; simp at hlt; omega
             rw [this]; cases lookup (t, rs) s.dirs <;> rfl
-          simp only [Store.rsVisible, Store.dvsOf, Store.dirRows, fdv, fdirs, this]
+          simp only [Store.rsVisible, Store.dirRows, fdirs, this, dvsOf_keep s s' tid selected fdv t rs hns]
         have hnew : (s'.rsVisible tid s.nextRs).map (·.2) = rows := by
-          have hdv : (s.dvs.filter fun e => e.tid == tid && e.rs == s.nextRs) = [] := by
+          have hdv : (s'.dvs.filter fun e => e.tid == tid && e.rs == s.nextRs) = [] := by
             rw [List.filter_eq_nil_iff]
             intro e he
-            have := wf.dv e he
+            rw [fdv] at he
+            have := wf.dv e (List.mem_filter.mp he).1
             simp; intro _; omega
           have hl : lookup (tid, s.nextRs) (s.dirs ++ [((tid, s.nextRs), rows)]) = some rows := by
             rw [lookup_append, lookup_none_of_forall _ _ (fun x hx heq => by
               have := wf.dirs x hx; rw [heq] at this; simp at this)]
             simp [lookup]
-          simp only [Store.rsVisible, Store.dvsOf, Store.dirRows, fdv, fdirs, hdv, hl, List.map_nil, deadIn_nil,
+          simp only [Store.rsVisible, Store.dvsOf, Store.dirRows, fdirs, hdv, hl, List.map_nil, deadIn_nil,
             visFrom_false, Option.getD_some]
         have hro : s'.rowsetsOf t = (if t = tid then (s.rowsetsOf tid).filter (fun x => !selected.contains x) else s.rowsetsOf t)
             ++ (if t = tid then [s.nextRs] else []) := by
@@ -564,12 +613,14 @@ theorem compactTable_scan (s : Store) (wf : Wf s) (tid : Nat) (d : TableDef) (se
           refine List.Perm.trans (List.Perm.append_right _ (List.Perm.of_eq ?_)) hsplit.symm
           apply flatMap_congr'
           intro rs hrs
-          rw [hold t rs (mem_rowsetsOf.mp (List.mem_filter.mp hrs).1)]
+          have hk := hkeptNot t rs (by simp only [if_true]; exact hrs)
+          rw [hold t rs hk.2 hk.1]
         · simp only [ht, if_false, List.flatMap_nil, List.append_nil]
           apply List.Perm.of_eq
           apply flatMap_congr'
           intro rs hrs
-          rw [hold t rs (mem_rowsetsOf.mp hrs)]
+          have hk := hkeptNot t rs (by simp only [ht, if_false]; exact hrs)
+          rw [hold t rs hk.2 hk.1]
 
 /-- **A whole compaction pass is invisible**, whatever order the tables are visited in and
 whatever each selection is. -/
